@@ -83,7 +83,7 @@ def _run(cond, raw, kd, n, k, edges, st, fi, labels, order, bound, unbounded):
 def c04_dense(kind: int, bits: B8, starts: int, finals: int, bound: int, unbounded: bool) -> bool:
     """
     pre: pinned(kind=kind, starts=starts, finals=finals, b0=bits[0], b1=bits[1], unbounded=unbounded)
-    pre: 0 <= kind < 3 and 0 <= starts < 4 and 0 <= finals < 4 and -1 <= bound <= 3
+    pre: ((0 <= kind) & (kind < 3)) & ((0 <= starts) & (starts < 4)) & ((0 <= finals) & (finals < 4)) & ((-1 <= bound) & (bound <= 3))
     pre: (not unbounded) or bound == 0
     post: _
     """
@@ -100,9 +100,9 @@ def c04_sparse(kind: int, n: int, k: int, t: T12, m: int, starts: int, finals: i
                bound: int, unbounded: bool) -> bool:
     """
     pre: pinned(kind=kind, n=n, k=k, m=m, starts=starts, finals=finals, perm=perm, t0=t[0], t1=t[1], unbounded=unbounded)
-    pre: 0 <= kind < 3 and 2 <= n <= 3 and 1 <= k <= 2 and 0 <= m <= 4 and 0 <= perm < 6
-    pre: 0 <= starts < (4 if n == 2 else 8) and 0 <= finals < (4 if n == 2 else 8) and -1 <= bound <= 3
-    pre: all(0 <= t[3 * i] < n and 0 <= t[3 * i + 1] <= k and 0 <= t[3 * i + 2] < n for i in range(4))
+    pre: ((0 <= kind) & (kind < 3)) & ((2 <= n) & (n <= 3)) & ((1 <= k) & (k <= 2)) & ((0 <= m) & (m <= 4)) & ((0 <= perm) & (perm < 6))
+    pre: ((0 <= starts) & (starts < (4 if n == 2 else 8))) & ((0 <= finals) & (finals < (4 if n == 2 else 8))) & ((-1 <= bound) & (bound <= 3))
+    pre: enc.sparse_ranges(t, n, k)
     pre: sparse_canonical(t, m)
     pre: (not unbounded) or bound == 0
     pre: n == 3 or perm == 0
